@@ -73,6 +73,14 @@ def gen_case(rng, tier, index):
     # multiprocessing.Pool (real processes, uncontrolled, in a forked child
     # with a watchdog); only schedule-independent facts are asserted
     case["real_pool"] = rng.random() < (0.04 if tier == "quick" else 0.15)
+    if case["real_pool"] and rng.random() < 0.6:
+        # two multi-writer calls on one dataset, both with real processes
+        # (state a forked worker inherits from the parent is the same in both)
+        ids = iter(range(200000, 200100))
+        pre = dsgen.gen_session(rng, ids, hist["structure"]["eps"],
+                                ("multi",), hist["splits"], ("none",), 3)
+        pre["single_process"] = False
+        hist["sessions"].insert(len(hist["sessions"]) - 1, pre)
     return case
 
 
@@ -91,6 +99,7 @@ def run_real_pool(case):
     def child():
         with dsgen.seams(hist["name_seed"], hist.get("clock", "monotone")):
             ha = dsgen.HistoryRunner(hist, root, pool_factory=None)
+            ha.real_pool = True
             ha.create()
             for k in range(last):
                 ha.run_session(k)
@@ -102,7 +111,12 @@ def run_real_pool(case):
             fresh = ha.sio.Dataset(root)
             got = {s: [i for i, _ in dsgen.read_sync(fresh, s, st["attrs"])]
                    for s in fresh._dataset_info.splits}  # pylint: disable=protected-access
-            return [list(r) for r in res], got
+            want = {s: sorted(ha.model.ids(s)) for s in ha.model.committed}
+            for w in ses["writers"]:
+                for x in w:
+                    want.setdefault(x["split"], []).append(x["id"])
+            return [list(r) for r in res], got, {s: sorted(v)
+                                                 for s, v in want.items()}
 
     try:
         status, val = eread.forked(child, 120.0)
@@ -116,7 +130,18 @@ def run_real_pool(case):
                        key={"engine": "real_pool"},
                        detail=f"{nwriters} real worker processes: {val}")
         else:
-            res, got = val
+            res, got, want = val
+            for split in set(want) | set(got):
+                if sorted(got.get(split, [])) != want.get(split, []) and \
+                        out["ok"]:
+                    out.update(
+                        ok=False, vclass="differs_from_sequential_run",
+                        key={"engine": "real_pool"},
+                        detail=f"split {split} after "
+                        f"{sum(1 for s_ in hist['sessions'] if s_['kind'] == 'multi')}"
+                        f" multi-writer call(s) with real processes: read "
+                        f"{sorted(got.get(split, []))[:10]} expected "
+                        f"{want.get(split, [])[:10]}")
             want_ret = [["wrote", len(w), [x["id"] for x in w][:1]]
                         for w in ses["writers"]]
             if res != want_ret:
